@@ -10,7 +10,7 @@ CONSTANTS
   Homes <- Homes3r
   WaitModes = {}
   LockParts = {}
-  ReqStates = {"A", "I"}
+  ReqStates = {"I"}
 INIT Init
 NEXT Next
 VIEW ageview
